@@ -218,6 +218,7 @@ def register(E):
                  'implies(wrote("status_code"), written("status_code") == 304)'],
         raises={'clastic.errors.HTTPException': None},
         exc_ensures=nonbreaking, exc_fields={'is_breaking': VBool(False)},
+        trace_ensures=True,     # wrote()/written() read this call's own write trace
         returns=TObj('Response'), prop=['C14', 'C13']))
 
     # ---- StaticApplication.get_file_response ------------------------------------------------
